@@ -14,7 +14,7 @@ import numpy as np
 from harness import jsonify
 from harness.envs.base import EnvAdapter
 
-NODE_BUDGET = 300_000
+NODE_BUDGET = 40_000
 
 
 def _pack(v):
@@ -23,60 +23,69 @@ def _pack(v):
     return (a * w).sum(axis=-1).tolist()
 
 
-def _rotations(b):
-    return [np.rot90(b, -k) for k in range(4)]  # k clockwise quarter turns
-
-
 def solve_tiling(blocks, R, C, free_translation, budget=NODE_BUDGET):
-    """Exact-cover search.  Returns (status, placements): status 1 with one (k, r, c) per block, 0 if the exhaustive
-    search proves there is none, 2 if the node budget ran out."""
+    """Exact-cover search (always branch on the empty cell with the fewest candidate placements).
+    Returns (status, placements): status 1 with one [k, r, c] per block (k clockwise quarter turns, (r, c) the grid
+    cell of the top-left corner of the 3x3 box), 0 if the exhaustive search proves there is none, 2 if the node
+    budget ran out.  free_translation: any translation keeping the cells inside the grid; otherwise only the
+    corners the action space offers (0..R-3, 0..C-3)."""
+    blocks = np.asarray(blocks)
     nb = len(blocks)
-    plc = []
-    for b in blocks:
-        cand = []
-        for k, rb in enumerate(_rotations(np.asarray(b))):
-            cells = [(i, j) for i in range(3) for j in range(3) if rb[i, j] != 0]
-            rr = range(-2, R) if free_translation else range(0, R - 2)
-            cc = range(-2, C) if free_translation else range(0, C - 2)
+    rows, meta = [], []
+    rr = range(-2, R) if free_translation else range(0, R - 2)
+    cc = range(-2, C) if free_translation else range(0, C - 2)
+    for b in range(nb):
+        seen = set()
+        for k in range(4):
+            cells = np.argwhere(np.rot90(blocks[b], -k) != 0)  # k clockwise quarter turns
             for r in rr:
                 for c in cc:
-                    cs = [(r + i, c + j) for i, j in cells]
-                    if all(0 <= x < R and 0 <= y < C for x, y in cs):
-                        cand.append((k, r, c, frozenset(cs)))
-        plc.append(cand)
-    # the generator numbers the pieces of its solved grid row-major: trying low numbers first at the first
-    # empty cell finds the intended solution almost without backtracking (the search stays exhaustive)
-    order = sorted(range(nb), key=lambda b: int(np.max(blocks[b])))
-    occ, used, nodes = set(), [None] * nb, [0]
+                    cs = cells + np.array([r, c])
+                    if len(cs) and (cs >= 0).all() and (cs[:, 0] < R).all() and (cs[:, 1] < C).all():
+                        idx = tuple(sorted(cs[:, 0] * C + cs[:, 1]))
+                        if idx in seen:  # the same cells through another rotation
+                            continue
+                        seen.add(idx)
+                        v = np.zeros(R * C, bool)
+                        v[list(idx)] = True
+                        rows.append(v)
+                        meta.append((b, k, r, c))
+    if not rows:
+        return 0, []
+    P = np.array(rows)
+    blk = np.array([m[0] for m in meta])
+    occ = np.zeros(R * C, bool)
+    choice = [None] * nb
+    nodes = [0]
 
     class Budget(Exception):
         pass
 
-    def rec():
+    def rec(alive):
         nodes[0] += 1
         if nodes[0] > budget:
             raise Budget
-        tgt = next(((x, y) for x in range(R) for y in range(C) if (x, y) not in occ), None)
-        if tgt is None:
-            return all(u is not None for u in used)
-        for b in order:
-            if used[b] is not None:
-                continue
-            for (k, r, c, cs) in plc[b]:
-                if tgt in cs and not (cs & occ):
-                    used[b] = (k, r, c)
-                    occ.update(cs)
-                    if rec():
-                        return True
-                    used[b] = None
-                    occ.difference_update(cs)
+        if occ.all():
+            return all(ch is not None for ch in choice)
+        cnt = np.where(occ, 10 ** 9, P[alive].sum(0))
+        cell = int(np.argmin(cnt))
+        if cnt[cell] == 0:
+            return False
+        for j in np.flatnonzero(alive & P[:, cell]):
+            b = blk[j]
+            occ[P[j]] = True
+            choice[b] = [int(x) for x in meta[j][1:]]
+            if rec(alive & (blk != b) & ~(P[:, P[j]].any(1))):
+                return True
+            occ[P[j]] = False
+            choice[b] = None
         return False
 
     try:
-        ok = rec()
+        ok = rec(np.ones(len(P), bool))
     except Budget:
         return 2, []
-    return (1, [list(u) for u in used]) if ok else (0, [])
+    return (1, [list(ch) for ch in choice]) if ok else (0, [])
 
 
 class Adapter(EnvAdapter):
